@@ -262,3 +262,16 @@ def write_json(path, obj):
     with open(tmp, "w") as f:
         json.dump(obj, f, indent=1)
     os.rename(tmp, path)
+
+
+def cleanup_work(tag, tier):
+    """remove the raw stream files of this check (prefix <tag>_ and <tag>search_) from the scratch directory"""
+    try:
+        for f in os.listdir(WORK):
+            if (f.startswith(tag + "_") and f"_{tier}." in f) or f.startswith(tag + "search_"):
+                try:
+                    os.unlink(os.path.join(WORK, f))
+                except OSError:
+                    pass
+    except OSError:
+        pass
